@@ -45,6 +45,12 @@ def one_dataset(ctx, rng, xr):
     else:
         A, classes = gen.stack_spectra(rng, f, th, sizes, cls=cls)
     da = gen.make_da(A, f, th, names, sizes, dtype=edt, dt_s=dt_s)
+    if th is not None and dmeta["full"] and len(th) > 2 and rng.random() < 0.3:
+        # the circle may start anywhere: same labels stored from another starting direction (wrapping through 360)
+        k = int(rng.choice([1, len(th) - 1, int(rng.integers(1, len(th)))]))
+        da = da.roll(dir=k, roll_coords=True)
+        th = da.dir.values.astype("float64")
+        dmeta = dict(dmeta, d0=dmeta["d0"] + ":rolled")
     E = da.values.astype("float64")          # what the library was given (after the dtype cast)
     f64 = da.freq.values.astype("float64")
     rt = rtol_for(da, da.freq)
